@@ -281,7 +281,7 @@ class Ctx:
             e["VERIF_SHARD"] = str(shard)
         if self.replay is not None and self.replay.get("stage") == name:
             e["VERIF_ONLY"] = str(self.replay["index"])
-            e["VERIF_SEED"] = str(self.replay["seed"])
+            e["VERIF_SEED"] = str(int(self.replay["seed"]) + seed_offset)  # the replay file records the run's base seed
             e["VERIF_N"] = str(self.replay.get("n", n))
         if env:
             e.update(env)
